@@ -168,6 +168,23 @@ def step (st : St) (line : String) : St × String :=
     match nat? gid, pubGroup which with
     | some gid, some g => ({ st with groups := put gid g st.groups }, "ok")
     | _, _ => bad
+  | ["reparams", pid, gid, m, n, s] =>
+    -- drop the parameter set and create it anew with other seeds (object identity has no meaning in the model)
+    match nat? pid, nat? gid, parseHex m, parseHex n, parseHex s with
+    | some pid, some gid, some m, some n, some s =>
+      let st' := { st with systems := st.systems.filter (fun kv => kv.1 ≠ pid), sessOf := st.sessOf.filter (fun kv => kv.2 ≠ pid) }
+      match find gid st'.groups with
+      | some g =>
+        match mkParams g.toGroup m n s with
+        | .ok p => ({ st' with systems := put pid (mkSys g pid p) st'.systems }, "ok")
+        | .error e => (st', errStr e)
+      | none => bad
+    | _, _, _, _, _ => bad
+  | ["unparams", pid] =>
+    match nat? pid with
+    | some pid => ({ st with systems := st.systems.filter (fun kv => kv.1 ≠ pid),
+                             sessOf := st.sessOf.filter (fun kv => kv.2 ≠ pid) }, "ok")
+    | none => bad
   | ["params", pid, "shipped", which] =>
     match nat? pid, pubGroup which with
     | some pid, some g =>
